@@ -2135,10 +2135,11 @@ class tensor:
         # Will the size change? If so we first need to resize x
         n = self.ndims
         sliceCheck = []
-        for element in subs:
+        for dim, element in enumerate(subs):
             if isinstance(element, slice):
                 if element.stop is None:
-                    sliceCheck.append(1)
+                    # open slice: keeps the current extent (a new mode gets extent 1)
+                    sliceCheck.append(self.shape[dim] - 1 if dim < n else 0)
                 else:
                     sliceCheck.append(element.stop - 1)
             elif isinstance(element, Iterable):
